@@ -286,6 +286,35 @@ def _membership_search(prog, fi: FuncInfo, e: ast.AST) -> Optional[str]:
     return None
 
 
+def _first_failure_reported(prog, fi: FuncInfo, it: ast.AST) -> Optional[str]:
+    """Iteration over a set whose per-element work is a lookup keyed by the element (`table[v]`), inside a try whose handler
+    turns the caught exception into the message of the error it raises: with several failing elements the one that is met
+    first is reported, and which one that is follows the hash seed."""
+    target = it.target
+    names = {n.id for n in ast.walk(target) if isinstance(n, ast.Name)}
+    body_root = prog.parent(it) if isinstance(it, ast.comprehension) else it
+    keyed = [x for x in ast.walk(body_root) if isinstance(x, ast.Subscript) and isinstance(x.ctx, ast.Load)
+             and any(isinstance(n, ast.Name) and n.id in names for n in ast.walk(x.slice))]
+    if not keyed:
+        return None
+    node = body_root
+    for anc in prog.ancestors(body_root):
+        if isinstance(anc, ast.Try) and any(node is b or any(node is d for d in ast.walk(b)) for b in anc.body):
+            for h in anc.handlers:
+                if h.name is None:
+                    continue
+                caught = {unparse(t).split(".")[-1] for t in (h.type.elts if isinstance(h.type, ast.Tuple) else [h.type])} if h.type is not None else {"BaseException"}
+                if not caught & {"KeyError", "LookupError", "IndexError", "Exception", "BaseException"}:
+                    continue      # the handler is for something else than the failing lookup
+                for rs in (x for b in h.body for x in ast.walk(b) if isinstance(x, ast.Raise) and x.exc is not None):
+                    if any(isinstance(n, ast.Name) and n.id == h.name for n in ast.walk(rs.exc)):
+                        return (f"the lookup {short(keyed[0], 40)} fails for the first unknown element met, and the handler puts that exception into the message "
+                                f"({short(rs.exc, 70)}): with several unknown elements the one named follows the hash seed")
+        if isinstance(anc, (ast.FunctionDef, ast.AsyncFunctionDef)):
+            break
+    return None
+
+
 def classify_use(ctx, fi: FuncInfo, e: ast.AST) -> tuple[str, str]:
     """('insensitive'|'sensitive'|'none', reason) for the syntactic context in which set expression e is consumed."""
     prog = ctx.prog
@@ -318,10 +347,35 @@ def classify_use(ctx, fi: FuncInfo, e: ast.AST) -> tuple[str, str]:
                 return "sensitive", "list.extend with a set"
             return "insensitive", f".{p.func.attr}() is order-insensitive"
         return "none", ""
+    if (isinstance(p, ast.comprehension) and p.iter is e) or (isinstance(p, ast.For) and p.iter is e):
+        first = _first_failure_reported(prog, fi, p)
+        if first:
+            return "sensitive", first
     if isinstance(p, ast.comprehension) and p.iter is e:
         comp = prog.parent(p)
-        if isinstance(comp, (ast.SetComp, ast.DictComp)):
-            return "insensitive", "set/dict comprehension over a set (membership only; dict order not read here)" if isinstance(comp, ast.SetComp) else ("sensitive", "dict comprehension over a set fixes an insertion order")[0:2] if False else ("insensitive", "set comprehension")
+        if isinstance(comp, ast.SetComp):
+            return "insensitive", "set comprehension over a set (membership only)"
+        if isinstance(comp, ast.DictComp):
+            # the dict remembers the order in which the set handed out its elements: insensitive only when the dict is a
+            # local that is used for lookups alone
+            pa = prog.parent(comp)
+            if isinstance(pa, ast.Assign) and pa.value is comp and len(pa.targets) == 1 and isinstance(pa.targets[0], ast.Name):
+                nm = pa.targets[0].id
+                loads = [x for x in ast.walk(fi.node) if isinstance(x, ast.Name) and x.id == nm and isinstance(x.ctx, ast.Load)]
+                stores = [x for x in ast.walk(fi.node) if isinstance(x, ast.Name) and x.id == nm and isinstance(x.ctx, ast.Store)]
+
+                def lookup_only(u: ast.AST) -> bool:
+                    up = prog.parent(u)
+                    if isinstance(up, ast.Subscript) and up.value is u and isinstance(up.ctx, ast.Load):
+                        return True
+                    if isinstance(up, ast.Compare) and u in up.comparators and all(isinstance(o, (ast.In, ast.NotIn)) for o in up.ops):
+                        return True
+                    if isinstance(up, ast.Attribute) and up.attr == "get" and isinstance(prog.parent(up), ast.Call):
+                        return True
+                    return False
+                if len(stores) == 1 and loads and all(lookup_only(u) for u in loads):
+                    return "insensitive", f"dict comprehension held in the local {nm}, which is only used for lookups"
+            return "sensitive", "dict comprehension over a set: the insertion order of the dict follows the hash seed"
         if isinstance(comp, ast.ListComp):
             # the list is bound to a local that is only consumed in order-insensitive ways (sorted(), set(), len(), membership)
             pa = prog.parent(comp)
